@@ -81,20 +81,21 @@ Judge(r) ==
   LET e == ev'
       t == Tags(r)
       H == g'
-      n1 == now'
+      n0 == now      \* the instant at which the transaction ran
+      n1 == now'     \* the instant at which the read methods were observed
       a == api'
   IN  /\ Flag(r.bad = <<>> /\ r.obs.stray = <<>> /\ RawShape(r.obs), "C10", "Observable", r, t)
       /\ Flag(C10_Supply(H, a), "C10", "Supply", r, t)
       /\ Flag(C10_Index(H, a), "C10", "Index", r, t)
       /\ Flag(C10_Avail(H, n1, a), "C10", "Avail", r, t)
-      /\ Flag(C10_RegisterFree(g, e, n1), "C10", "RegisterFree", r, t)
-      /\ Flag(C10_Renew(H, e, n1), "C10", "Renew", r, t)
+      /\ Flag(C10_RegisterFree(g, e, n0), "C10", "RegisterFree", r, t)
+      /\ Flag(C10_Renew(H, e, n0), "C10", "Renew", r, t)
       /\ Flag(C10_ChainAlive(H, n1, a), "C10", "ChainAlive", r, t)
       /\ Flag(C10_Announced(g, H, e), "C10", "Announced", r, t)
-      /\ Flag(C11_UnauthorisedInert(g, e, n1), "C11", "UnauthorisedInert", r, t)
+      /\ Flag(C11_UnauthorisedInert(g, e, n0), "C11", "UnauthorisedInert", r, t)
       /\ Flag(C12_Lists(g, H), "C12", "Lists", r, t)
-      /\ Flag(C12_Ops(g, e, n1), "C12", "Ops", r, t)
-      /\ Flag(C12_Serial(g, e, n1, a), "C12", "Serial", r, t)
+      /\ Flag(C12_Ops(g, e, n0), "C12", "Ops", r, t)
+      /\ Flag(C12_Serial(g, e, n0, a), "C12", "Serial", r, t)
       /\ Flag(C12_Get(H, n1, a), "C12", "Get", r, t)
       /\ Flag(C12_GetAll(H, n1, a), "C12", "GetAll", r, t)
       /\ Flag(C12_Resolve(H, n1, a), "C12", "Resolve", r, t)
@@ -128,7 +129,7 @@ TraceNext ==
             THEN /\ g' = GInit
                  /\ Flag(r.year = YEAR /\ r.bad = <<>> /\ o.stray = <<>>, "C10", "Observable", r, {})
                  /\ Flag(ApiStep /\ ns' = GInit.reg, "DRIFT", "Reset", r, {})
-            ELSE /\ g' = GNext(g, ev', now')
+            ELSE /\ g' = GNext(g, ev', now)
                  /\ Judge(r)
          /\ IF l' = Len(Trace) THEN PrintT("DONE|" \o ToString(l')) ELSE TRUE
 
